@@ -135,6 +135,7 @@ ResolvableTerm(t, tg, nidU) ==
             LET x == ObjIdxSeq(t.objs[a])[z] IN
             x = ObjIdxSeq(t.objs[b])[z] /\ x \notin tg /\ OccTerm(t, x) = 2
 
+SwapPair(sig, g) == [sig EXCEPT ![g[1]] = sig[g[2]], ![g[2]] = sig[g[1]]]
 StripOrd(t) == [t EXCEPT !.ord = <<>>]
 StripPref(t) == [t EXCEPT !.ord = <<>>, !.num = 1, !.den = 1, !.s2 = 0, !.s3 = 0]
 RECURSIVE FlattenObjsR(_, _)
@@ -403,6 +404,62 @@ SchemeContract(ev, M) ==
      \o Clause("worse-than-hyper",
                \A k \in 1..n : steps[k].comp.total <= hyper, hyper)
 
+(* -- remove_tensor / derivative (C14) ---------------------------------------------- *)
+(* ev.a.blocks: one record per returned block                              *)
+(*   [prod : T_B(idx) * R_B as an expression (no weight), rexpr : R_B,     *)
+(*    tidx : the index ids of the removed tensor block in Obj.idx order,   *)
+(*    nu : number of upper indices, amp : is an ADC amplitude, bk]         *)
+(* documented normalisation of remove_tensor:                              *)
+(*   E = sum_B w_B sum_idx T_B(idx) R_B(idx),  w_B = m_B / |Sym_B|,        *)
+(*   |Sym_B| = prod over same-space groups of upper and of lower of n!,    *)
+(*   m_B = 2 for a bra-ket (anti)symmetric tensor on an off-diagonal       *)
+(*   block (partner folded), else 1; ADC amplitude: w_B = 1/sqrt(|Sym_B|). *)
+GroupOrder(ev, ids) ==
+  LET sp == {ev.idx[i].s : i \in SeqRange(ids)} IN
+  FoldSet(LAMBDA x, a : a * Fact(Cardinality({k \in 1..Len(ids) : ev.idx[ids[k]].s = x})), 1, sp)
+BlockUpper(b) == IF b.kind = "M" THEN SubSeq(b.tidx, Len(b.tidx) - b.nu + 1, Len(b.tidx)) ELSE SubSeq(b.tidx, 1, b.nu)
+BlockLower(b) == IF b.kind = "M" THEN SubSeq(b.tidx, 1, Len(b.tidx) - b.nu) ELSE SubSeq(b.tidx, b.nu + 1, Len(b.tidx))
+SymOrder(ev, b) == GroupOrder(ev, BlockUpper(b)) * GroupOrder(ev, BlockLower(b))
+OffDiagonal(ev, b) ==
+  LET su == SeqBag([k \in 1..Len(BlockUpper(b)) |-> ev.idx[BlockUpper(b)[k]].s])
+      sl == SeqBag([k \in 1..Len(BlockLower(b)) |-> ev.idx[BlockLower(b)[k]].s])
+  IN su # sl
+BlockWeight(ev, b) ==
+  IF b.kind \in {"N", "none"} THEN 1          \* no permutational symmetry
+  ELSE IF b.amp THEN Inv(SqrtImage(SymOrder(ev, b)))
+  ELSE FMul(IF b.bk # 0 /\ OffDiagonal(ev, b) THEN 2 ELSE 1, Inv(Norm(SymOrder(ev, b))))
+
+(* adjacent same-space positions inside upper / lower: the generators of   *)
+(* the block symmetry                                                      *)
+BlockGenerators(ev, b) ==
+  LET gen(ids) == {<<ids[k], ids[k + 1]>> : k \in {j \in 1..(Len(ids) - 1) : ev.idx[ids[j]].s = ev.idx[ids[j + 1]].s}}
+  IN gen(BlockUpper(b)) \cup gen(BlockLower(b))
+
+RemoveTensorContract(ev, M) ==
+  LET tg == SeqRange(ev.tgt)
+      bs == ev.a.blocks
+      ordok == ExprOrdOk(ev.pre, tg) /\ \A k \in 1..Len(bs) : ExprOrdOk(bs[k].prod, tg)
+      recon(sig) == FoldSet(LAMBDA k, a : FAdd(a, FMul(IF ev.a.what = "remove" THEN BlockWeight(ev, bs[k]) ELSE 1,
+                                                       Val(bs[k].prod, ev.idx, tg, sig, M))), 0, 1..Len(bs))
+      bad == {sig \in Assignments(ev.tgt, ev.idx, M) : Val(ev.pre, ev.idx, tg, sig, M) # recon(sig)}
+      \* symmetry of the block expressions (targets: term targets + block indices)
+      symbad == {k \in 1..Len(bs) :
+                   LET btg == ev.tgt \o bs[k].tidx
+                       bset == SeqRange(btg)
+                       sgn == IF bs[k].kind = "S" THEN 1 ELSE P - 1
+                   IN ExprOrdOk(bs[k].rexpr, bset) /\
+                      \E g \in BlockGenerators(ev, bs[k]) :
+                        \E sig \in Assignments(btg, ev.idx, M) :
+                          Val(bs[k].rexpr, ev.idx, bset, SwapPair(sig, g), M) #
+                          FMul(sgn, Val(bs[k].rexpr, ev.idx, bset, sig, M))}
+  IN IF ~ordok THEN << <<"ord", "loop order">> >>
+     ELSE (IF bad = {} THEN <<>>
+           ELSE LET sig == CHOOSE s \in bad : TRUE IN
+                << <<"val", [n |-> Cardinality(bad), at |-> sig,
+                            lhs |-> Val(ev.pre, ev.idx, tg, sig, M), rhs |-> recon(sig)]>> >>)
+          \o (IF ev.a.what = "remove" /\ ev.a.checksym
+              THEN Clause("block-symmetry", symbad = {}, symbad) ELSE <<>>)
+
 (* -- the contract per operation ------------------------------------------ *)
 Contract(ev, M) ==
   CASE ev.op = "valpres" -> ValEq(ev, M, ev.pre, ev.post)
@@ -411,6 +468,7 @@ Contract(ev, M) ==
     [] ev.op = "simplify_unitary" -> UnitaryContract(ev, M)
     [] ev.op = "wicks" -> WicksContract(ev, M)
     [] ev.op = "tensor" -> TensorContract(ev, M)
+    [] ev.op = "remove_tensor" -> RemoveTensorContract(ev, M)
     [] ev.op = "scheme" -> SchemeContract(ev, M)
     [] ev.op = "order_substitutions" -> OrderSubsContract(ev, M)
     [] ev.op = "permute" -> PermuteContract(ev, M)
